@@ -302,7 +302,8 @@ func checkC08(w *World) {
 
 	// shared rules: the evaluator must read the tree as the grammar structures it
 	w.include(P, "C11", "R11.2", "R11.3") // QName / NCName tokenisation incl. names that spell an axis, node type or operator
-	w.include(P, "C01", "R01.4", "R01.7") // abbreviated forms equal their expansions; absolute paths
+	w.include(P, "C01", "R01.4", "R01.7", "R01.9", "R01.14") // abbreviated forms equal their expansions (selector and principal node type); absolute paths
+	w.spanTextTrimmed(P, f)
 	w.include(P, "C02", "R02.4", "R02.8") // operands/steps threaded as the production shape requires, nothing skipped
 	// no panic while building an expression: bounds discipline of the hand-written grammar front end
 	docRule(P, "R08.6", "D", "grammar.Build and the Grammar accessors (hand-written front end of the generated parser) contain no slice or index expression with a computed bound that is not a loop counter, guarded by a length comparison, or a constant: error reporting must not panic on any input.")
@@ -884,4 +885,88 @@ func constArgsFor(v ssa.Value, within []*ssa.Function) ([]int64, bool) {
 		})
 	}
 	return out, all && len(out) > 0
+}
+
+// spanTextTrimmed (R08.14): the text of a production that spans several tokens contains the optional whitespace
+// between them (ExprWhitespace: space, tab, CR, LF). A handler that takes a word out of that text and compares it with
+// constants must have removed all four characters from the end the next token was cut off at: strings.TrimSpace,
+// strings.Fields, or Trim/TrimRight with a cut-set containing the four. `TrimRight(s, " ")` makes `text\n()` select
+// nothing.
+func (w *World) spanTextTrimmed(P string, f *Facts) {
+	docRule(P, "R08.14", "F", "optional whitespace inside a production: in the handler of a production with more than one symbol, a string that derives from the production's text (Grammar.GetString) and is compared with a constant has passed through strings.TrimSpace, strings.Fields, or strings.Trim/TrimRight with a cut-set that contains space, tab, CR and LF.")
+	var nts []string
+	for nt := range f.Handlers {
+		nts = append(nts, nt)
+	}
+	sort.Strings(nts)
+	fullSet := func(v ssa.Value) bool {
+		cs, ok := constString(v)
+		return ok && strings.Contains(cs, " ") && strings.Contains(cs, "\t") && strings.Contains(cs, "\r") && strings.Contains(cs, "\n")
+	}
+	n := 0
+	seenSite := map[ssa.Instruction]bool{}
+	for _, nt := range nts {
+		multi := false
+		for _, a := range f.Alts[nt] {
+			if len(a.Syms) > 1 {
+				multi = true
+			}
+		}
+		if !multi {
+			continue
+		}
+		h := f.Handlers[nt]
+		for _, fn := range w.handlerClosureH(h) {
+			allInstrs(fn, func(in ssa.Instruction) {
+				bo, ok := in.(*ssa.BinOp)
+				if !ok || (bo.Op != token.EQL && bo.Op != token.NEQ) || seenSite[in] {
+					return
+				}
+				var text ssa.Value
+				if _, isK := constString(bo.Y); isK {
+					text = bo.X
+				} else if _, isK := constString(bo.X); isK {
+					text = bo.Y
+				}
+				if text == nil || !isStringType(text.Type()) {
+					return
+				}
+				fromSpan, trimmed := false, false
+				backSlice(text, func(v ssa.Value) bool {
+					c, isCall := v.(*ssa.Call)
+					if !isCall {
+						return true
+					}
+					sc := staticCallee(c)
+					if sc == nil {
+						return true
+					}
+					switch name := funcFullName(sc); {
+					case sc.Name() == "GetString" && fnPkgKey(sc) == "grammar":
+						// the handler's own expression: the whole span (the text of a child taken with Next is
+						// that child's business)
+						if _, own := c.Call.Args[0].(*ssa.Parameter); own {
+							fromSpan = true
+						}
+						return false
+					case name == "strings.TrimSpace" || name == "strings.Fields":
+						trimmed = true
+					case (name == "strings.Trim" || name == "strings.TrimRight") && len(c.Call.Args) == 2 && fullSet(c.Call.Args[1]):
+						trimmed = true
+					}
+					return true
+				})
+				if !fromSpan {
+					return
+				}
+				seenSite[in] = true
+				n++
+				w.check(P, "R08.14", fmt.Sprintf("%s: text compared with a constant in %s", nt, fn.Name()), in.Pos(), trimmed, fmt.Sprintf("the text of the production has lost space, tab, CR and LF at its end before the comparison: %v", trimmed))
+			})
+		}
+	}
+	if n == 0 {
+		w.undecided(P, "R08.14", "span text", 0, "no handler of a multi-symbol production compares its text with a constant")
+	}
+	w.floorSites(P, "R08.14", 1)
 }
